@@ -382,6 +382,7 @@ EXCEPTIONS_R7 = {
     ('dedupe::FsCommand::check_can_rename', r'symlink_metadata$'): 'existence probe: `is_ok()` of the lstat *is* the answer (any failure = nothing there to overwrite; the following rename/copy reports real errors)',
     ('dedupe::FsCommand::maybe_lock', r'FileLock::new$'): 'only ErrorKind::Unsupported is turned into Ok(None), every other error is returned (decided by C20.R2)',
     ('dedupe::FsCommand::execute', r'FsCommand::move_rename$'): 'documented fall-back: a failed rename falls through to move_copy, which reports its own error',
+    ('dedupe::partition::{closure}', r'FileMetadata::new$'): 'identity of a directory entry (parent id + name): when the parent cannot be stat-ed the entry gets the identity None, which it shares with every other such entry, so it counts as an alias and is retained - the safe direction',
     ('dedupe::FsCommand::move_copy', r'^std::fs::remove_file$'): 'clean-up of the incomplete copy after unsafe_copy failed; the copy error itself is returned (decided by C05.R3 target-cleanup)',
 }
 
@@ -403,7 +404,7 @@ def r7(ctx, lib):
             cat, det = err_handling(b, c)
             key = '%s|%s' % (b.path, (c.path or c.decl))
             if cat in ('DISCARDED', 'PANICS', 'HANDLED-ARM'):
-                exc = [why for (bp, rx), why in EXCEPTIONS_R7.items() if bp == b.path and re.search(rx, c.path)]
+                exc = [why for (bp, rx), why in EXCEPTIONS_R7.items() if (bp == b.path or (bp.endswith('::{closure}') and re.sub(r'\{closure#\d+\}$', '{closure}', b.path) == bp)) and re.search(rx, c.path)]
                 if exc:
                     ctx.ok(rule, key, c.where(), '%s - named exception: %s' % (cat, exc[0]))
                 else:
